@@ -113,7 +113,7 @@ class EluPlugin(PrimitiveLeafPlugin):
     def lower(self, ctx: LoweringContextProtocol, eqn: JaxprEqn) -> None:
         alpha = float(eqn.params.get("alpha", 1.0))
         attrs: dict[str, float] = {}
-        if not np.isclose(alpha, 1.0):
+        if alpha != 1.0:
             attrs["alpha"] = float(alpha)
         lower_unary_elementwise(
             ctx,
